@@ -600,30 +600,32 @@ impl VariableType {
 
 impl fmt::Display for VariableType {
     fn fmt(&self, f: &mut fmt::Formatter<'_>) -> fmt::Result {
+        //`+ 0.0` writes a negative zero bound as 0: the two are the same bound, and -0 is
+        //read back as 0, so the text would change on the next rendering
         let s = match self {
             VariableType::Boolean => "Boolean".to_string(),
-            VariableType::NonNegativeReal(min, max) => match (*min, *max) {
+            VariableType::NonNegativeReal(min, max) => match (*min + 0.0, *max + 0.0) {
                 (0.0, f64::INFINITY) => "NonNegativeReal".to_string(),
-                _ => format!(
+                (min, max) => format!(
                     "NonNegativeReal({}, {})",
                     min,
-                    if *max == f64::INFINITY {
+                    if max == f64::INFINITY {
                         "Infinity".to_string()
                     } else {
                         max.to_string()
                     }
                 ),
             },
-            VariableType::Real(min, max) => match (*min, *max) {
+            VariableType::Real(min, max) => match (*min + 0.0, *max + 0.0) {
                 (f64::NEG_INFINITY, f64::INFINITY) => "Real".to_string(),
-                _ => format!(
+                (min, max) => format!(
                     "Real({}, {})",
-                    if *min == f64::NEG_INFINITY {
+                    if min == f64::NEG_INFINITY {
                         "MinusInfinity".to_string()
                     } else {
                         min.to_string()
                     },
-                    if *max == f64::INFINITY {
+                    if max == f64::INFINITY {
                         "Infinity".to_string()
                     } else {
                         max.to_string()
